@@ -17,7 +17,7 @@ PY
 [ $? -eq 0 ] || { git checkout -- .; exit 2; }
 git --no-pager diff --stat | tail -1
 for C in "$@"; do
-  OUT=$(cd /verif && VERIF_ROOT=/tmp/mutant_out timeout 900 ./check_scratch "$C" 2>&1)
+  OUT=$(cd /verif && VERIF_ROOT=/tmp/mutant_out timeout 900 ./check "$C" 2>&1)
   CODE=$?
   echo "== $C exit=$CODE :: $(echo "$OUT" | grep -c '^VIOLATION') violation lines; classes: $(echo "$OUT" | grep 'violation class' | tr -s ' ' | tr '\n' ';')"
 done
